@@ -78,3 +78,29 @@ def validate_runs(ctx, sub, module, cfg, tf, label, runs, silent=True, sig=None,
     if lines:
         ctx.sample({"bubble_trace_prefix": [json.loads(x) for x in lines[1:6]]}, limit=8)
     return ok
+
+
+def rt_tv(ctx, kind, sub, module, cfg, label, n, confirm=True, timeout=600):
+    """real-clock lane (vh rt) under the pre-1.23 timer semantics the library's go.mod selects when it is the main
+    module (GODEBUG=asynctimerchan=1; synctest bubbles refuse that setting). Only scheduling-delay-proof rules are
+    judged; a rejection of a rule with a time slack must repeat in a second, independent recording before it is
+    reported (an unconfirmed one is a note)."""
+    for attempt in (1, 2):
+        tf = ctx.path("rt-%s-%d.ndjson" % (kind, attempt))
+        rc, o = ctx.run_vh(["rt", "-kind", kind, "-out", tf, "-n", str(n)], timeout=timeout, env_extra={"GODEBUG": "asynctimerchan=1"})
+        reps = ctx.harness_report(o, "rt " + label)
+        if rc != 0 or not reps:
+            raise vlib.Trouble("rt lane %s died (rc=%s):\n%s" % (kind, rc, o[-3000:]))
+        ctx.extra.setdefault("rt", []).append(reps[-1])
+        acc, r, hwm = ctx.tv(sub, module, cfg, tf, timeout=3000)
+        if acc:
+            ctx.traces += reps[-1]["runs"]
+            ctx.log("rt %s: %d events accepted%s" % (label, reps[-1]["events"], "" if attempt == 1 else " (the first recording was rejected: unconfirmed, note only)"))
+            if attempt == 2:
+                ctx.notes.append("rt %s: a real-clock rejection did not repeat in a second recording (not a verdict)" % label)
+            return True
+        if confirm and attempt == 1:
+            ctx.log("rt %s: rejected at line %s, recording again to confirm" % (label, hwm))
+            continue
+        return validate_runs(ctx, sub, module, cfg, tf, "rt " + label, reps[-1]["runs"], silent=False)
+    return False
